@@ -1,6 +1,6 @@
 #!/usr/bin/env python3
 """Generates /verif/MANIFEST.json from the table below (kept in one place so the manifest is always valid)."""
-import json, os
+import json, os, subprocess
 ROOT = os.path.dirname(os.path.dirname(os.path.abspath(__file__)))
 
 NOTE = ("Trusted: Coq 8.16.1 kernel incl. vm_compute (no native_compute), no axioms (Print Assumptions must say "
@@ -16,6 +16,14 @@ for fn in sorted(os.listdir(os.path.join(ROOT, "claims"))):
         CLAIMS[fn[:-5]] = (d["text"], d["technique"], d.get("note", ""), d.get("design_ref", "5 " + fn[:-5]))
 
 NOT_YET = {}
+
+def hook_commits():
+    """commits in /repo that add the build-tag-guarded hook files (message starts with 'verif hook')"""
+    try:
+        out = subprocess.run(["git", "-C", "/repo", "log", "--format=%H %s"], capture_output=True, text=True).stdout
+        return [l.split()[0] for l in out.splitlines() if l.split(" ", 1)[1].startswith("verif hook")]
+    except Exception:
+        return []
 
 def main():
     props = [json.loads(l) for l in open(os.path.join(ROOT, "properties.jsonl"))]
@@ -41,7 +49,7 @@ def main():
         setup_cmd="./setup.sh",
         hooks=dict(guard="verif", enable="go build -tags verif (the harness module replaces github.com/cloudwego/gopkg => /repo)",
                    baseline_off_cmd="cd /repo && GOFLAGS=-mod=mod GOPROXY=off GOSUMDB=off go test -vet=off -count=1 ./...",
-                   source_commits=[], add_only=True),
+                   source_commits=hook_commits(), add_only=True),
         engines=[dict(name="rocq-proof+correspondence", path="/verif/check",
                       serves_properties=[c["property_id"] for c in checks],
                       kind_free_text="Rocq (Coq 8.16.1) theorems about executable Gallina models; models tied to /repo on every run by a regenerating translator (constants/tables/static types) and a differential correspondence run (Go harness vs extracted model, sample re-evaluated in the kernel)")],
